@@ -31,6 +31,9 @@ PROPS = {
     "C08": {"streams": [S("stream", 60, 600), S("streamhdr", 1, 2)], "projection": "full"},
     "C17": {"streams": [S("streamfault", 12, 80)], "projection": "full"},
     "C19": {"streams": [], "projection": "full", "abi_crosscheck": True},
+    "C06": {"streams": [S("file", 120, 1200), S("sweep", 1, 2), S("notes", 200, 2000), S("sysv", 80, 600), S("gnu", 80, 600),
+                        S("symver", 60, 500), S("strtab", 300, 3000), S("table", 200, 1000)],
+            "projection": "panic", "feature_matrix": True},
     "C01": {
         "streams": [S("int", 1500, 10000), S("parse", 1500, 8000), S("table", 800, 4000), S("strtab", 800, 6000),
                     S("ident", 400, 2000), S("notes", 300, 3000), S("sysv", 120, 1000), S("gnu", 120, 1000),
@@ -240,6 +243,20 @@ LEVEL_TEXT["C19"] = {
             "every to_str function over its whole u8/u16 domain and over all constant values, neighbours and random values for u32/i64).",
     "note": COMMON_NOTE + " The reference tables are vendored by hand (ref/build_reference.py, ref/DROPPED.md); 46 crate constants are in neither header and are not covered.",
     "technique": "Lean 4 kernel-checked table comparison (translator-generated tables vs vendored reference) + compiled-crate cross-check",
+}
+
+LEVEL_TEXT["C06"] = {
+    "text": "Partial by nature. (1) cfg logic, proved: the gate table (every cfg attribute with the item it guards, every use of std::, alloc:: "
+            "or a heap-allocating name in non-test code, extern crate items, the no_std crate attribute, [features] implications) is "
+            "regenerated from the sources each run; kernel-evaluated theorems over all 8 feature subsets: every compiled-in use site has its "
+            "provider available; with default features disabled (and with only to_str) the crate is no_std, links neither alloc nor std, has "
+            "no dependencies and compiles in no item that names std/alloc/heap types; predicted linkage table. (2) Exhaustive build matrix, "
+            "measured: cargo check of all 8 subsets must succeed and the externally linked crates (rustc -Z ls=root on a nightly build) must "
+            "equal the model's prediction. (3) Zero allocation, measured: a counting global allocator armed around bare slice-parser calls "
+            "(open + every accessor, iterators, hash lookups, version queries) on the C01 case set must count 0; the model of the slice "
+            "parser has no allocation effect by construction.",
+    "note": COMMON_NOTE + " rustc is the judge of 'compiles'; allocations inside core are out of scope (core does not allocate).",
+    "technique": "Lean 4 kernel-checked cfg/feature model (translator-generated) + exhaustive 8-subset build matrix + counting allocator",
 }
 
 # every property not yet claimed is listed here with the reason; entries disappear as checks land
